@@ -94,6 +94,7 @@ DumpOutcome == stage = "exit" =>
                            conflict |-> feat.conflict, status |-> status, written |-> written,
                            announced |-> announced])>>)
 
-(* C11: the machine is deterministic *)
-Deterministic == [][\A s1, s2 \in {stage'} : s1 = s2]_pvars
+(* C11: the machine is deterministic: every state has at most one successor. *)
+(* TLC reports the maximum out-degree of the complete state graph; the       *)
+(* harness requires it to be 1.                                               *)
 =============================================================================
